@@ -177,6 +177,82 @@ func executeE(size int, script []string, errs []int) (c lrCase, delivered []stri
 	return
 }
 
+type genObs struct {
+	Obs []obs    `json:"obs"`
+	Fin []string `json:"fin"`
+}
+
+type lrGenCase struct {
+	Size int        `json:"size"`
+	Gens [][]string `json:"gens"`
+	Res  []genObs   `json:"res"`
+}
+
+// executeG runs ONE real LineReader over several generations: the reads of a
+// generation, then Finish, then the same reader goes on with the next
+// generation (what a file stream does at a truncation).
+func executeG(size int, gens [][]string) (c lrGenCase, delivered [][]string, problems []string) {
+	defer func() {
+		if r := recover(); r != nil {
+			problems = append(problems, fmt.Sprintf("panic: %v", r))
+		}
+	}()
+	total := 0
+	for _, g := range gens {
+		for _, s := range g {
+			total += len(s)
+		}
+	}
+	ch := make(chan *logline.LogLine, total+len(gens)+2)
+	src := &scripted{}
+	ctx := context.Background()
+	lr := logstream.NewLineReader("c15", ch, src, size, func() {})
+	c = lrGenCase{Size: size}
+	for _, g := range gens {
+		c.Gens = append(c.Gens, vlib.Qs(g))
+		for _, s := range g {
+			src.chunks = append(src.chunks, []byte(s))
+		}
+		var got []string
+		gobs := genObs{Obs: []obs{}}
+		guard := 0
+		for len(src.chunks) > 0 {
+			n, err := lr.ReadAndSend(ctx)
+			if err != nil || n != src.returned {
+				problems = append(problems, fmt.Sprintf("ReadAndSend returned (%d, %v), the reader returned (%d, nil)", n, err, src.returned))
+			}
+			ls := drain(ch)
+			got = append(got, ls...)
+			pend, _, _, _ := lr.VerifState()
+			gobs.Obs = append(gobs.Obs, obs{src.offered, src.returned, vlib.Qs(ls), vlib.Q(string(pend))})
+			if guard++; guard > 4*total+4*len(g)+16 {
+				problems = append(problems, "reader makes no progress")
+				break
+			}
+		}
+		lr.Finish(ctx)
+		fin := drain(ch)
+		got = append(got, fin...)
+		gobs.Fin = vlib.Qs(fin)
+		c.Res = append(c.Res, gobs)
+		delivered = append(delivered, got)
+	}
+	lr.VerifStopTimer()
+	return
+}
+
+func coqGenCase(id uint64, c lrGenCase) string {
+	gs := make([]string, len(c.Gens))
+	for i, g := range c.Gens {
+		gs[i] = tlib.LS(vlib.UnQs(g))
+	}
+	rs := make([]string, len(c.Res))
+	for i, r := range c.Res {
+		rs[i] = "(" + coqObs(r.Obs) + ", " + tlib.LS(vlib.UnQs(r.Fin)) + ")"
+	}
+	return vlib.App("CLRG", vlib.N(id), vlib.Nat(c.Size), vlib.List(gs), vlib.List(rs))
+}
+
 // frame is the property statement as a Go function.
 func frame(stream string) []string {
 	parts := strings.Split(stream, "\n")
@@ -370,7 +446,7 @@ func main() {
 	// a sample of the longer ones.
 	maxGo, fullCoq := 5, 3
 	sample := map[int]int{4: 8, 5: 1} // 1/300ths of the cases of that length replayed by the model
-	every := 40                         // one random case per this many model cases
+	every := 40                       // one random case per this many model cases
 	if a.Thorough() {
 		maxGo, fullCoq = 6, 4
 		sample = map[int]int{5: 30, 6: 2} // per 300
@@ -491,6 +567,98 @@ func main() {
 		runE(vlib.Pick(rng, []int{1, 2, 3, 7, 16, 64, 4096}), script, errs, true, "with-error/random")
 		sweptE++
 	}
+	// ---- one reader over several generations (Finish, then more reads) ----
+	runG := func(size int, gens [][]string, toCoq bool, tag string) {
+		c, got, probs := executeG(size, gens)
+		for i, g := range gens {
+			want := frame(strings.Join(g, ""))
+			var have []string
+			if i < len(got) {
+				have = got[i]
+			}
+			if !sameLines(want, have) {
+				violate(classify(strings.Join(g, ""), want, have)+"/after-finish",
+					fmt.Sprintf("generations %q with buffer size %d: generation %d delivered %q, the property requires %q (each generation is framed on its own after Finish)", gens, size, i, have, want),
+					map[string]any{"size": size, "gens": c.Gens})
+				break
+			}
+		}
+		for _, p := range probs {
+			class := "reader-protocol"
+			if strings.HasPrefix(p, "panic:") {
+				class = "reader-panic"
+			}
+			violate(class, fmt.Sprintf("generations %q size %d: %s", gens, size, p), map[string]any{"size": size, "gens": c.Gens})
+		}
+		if toCoq {
+			out.Add(coqGenCase(out.NextID(), c), c, len(gens) >= 2)
+			out.Count(tag)
+		}
+	}
+	sweptG := 0
+	// exhaustive: two generations, strings over {\n, \r, a} with total length <= 4, every chunking, sizes 1-3
+	var strs [][]string
+	strs = append(strs, []string{""})
+	for n := 1; n <= 3; n++ {
+		var cur []string
+		for _, p := range strs[n-1] {
+			for _, b := range alphabet[:3] {
+				cur = append(cur, p+string(b))
+			}
+		}
+		strs = append(strs, cur)
+	}
+	for n1 := 0; n1 <= 3; n1++ {
+		for n2 := 1; n1+n2 <= 4 && n2 <= 3; n2++ {
+			for _, s1 := range strs[n1] {
+				for _, s2 := range strs[n2] {
+					for m1 := 0; m1 < 1<<max(n1-1, 0); m1++ {
+						for m2 := 0; m2 < 1<<max(n2-1, 0); m2++ {
+							for size := 1; size <= 3; size++ {
+								runG(size, [][]string{chunking(s1, m1), chunking(s2, m2)}, n1+n2 <= 2 || rng.Intn(40) == 0, "generations/exhaustive")
+								sweptG++
+							}
+						}
+					}
+				}
+			}
+		}
+	}
+	ng := 60
+	if a.Thorough() {
+		ng = 1200
+	}
+	for i := 0; i < ng; i++ {
+		var gens [][]string
+		for k := 1 + rng.Intn(4); k > 0; k-- {
+			n := rng.Intn(60)
+			b := make([]byte, n)
+			for j := range b {
+				switch x := rng.Intn(100); {
+				case x < 18:
+					b[j] = '\n'
+				case x < 28:
+					b[j] = '\r'
+				default:
+					b[j] = byte(97 + rng.Intn(26))
+				}
+			}
+			var g []string
+			mc := 1 + rng.Intn(24)
+			for p := 0; p < n; {
+				l := 1 + rng.Intn(mc)
+				if p+l > n {
+					l = n - p
+				}
+				g = append(g, string(b[p:p+l]))
+				p += l
+			}
+			gens = append(gens, g)
+		}
+		runG(vlib.Pick(rng, []int{1, 2, 3, 5, 16, 64, 4096}), gens, true, "generations/random")
+		sweptG++
+	}
+	out.Extra["generations_checked_by_oracle"] = sweptG
 	out.Extra["reads_with_error_checked_by_oracle"] = sweptE
 	out.Extra["exhaustive_cases_checked_by_oracle"] = swept
 	out.Extra["oracle_violations_by_class"] = perClass
@@ -505,12 +673,42 @@ func main() {
 func replay(path string) {
 	var v struct {
 		Case struct {
-			Size   int      `json:"size"`
-			Script []string `json:"script"`
-			Errs   []int    `json:"errs"`
+			Size   int        `json:"size"`
+			Script []string   `json:"script"`
+			Errs   []int      `json:"errs"`
+			Gens   [][]string `json:"gens"`
 		} `json:"case"`
 	}
 	vlib.ReadJSON(path, &v)
+	if len(v.Case.Gens) > 0 {
+		var gens [][]string
+		for _, g := range v.Case.Gens {
+			gens = append(gens, vlib.UnQs(g))
+		}
+		_, got, probs := executeG(v.Case.Size, gens)
+		fails := len(probs) > 0
+		fmt.Printf("replay %s\nsize %d\n", path, v.Case.Size)
+		for i, g := range gens {
+			want := frame(strings.Join(g, ""))
+			var have []string
+			if i < len(got) {
+				have = got[i]
+			}
+			fmt.Printf("generation %d reads %q\n  delivered %q\n  required  %q\n", i, g, have, want)
+			if !sameLines(want, have) {
+				fails = true
+			}
+		}
+		for _, p := range probs {
+			fmt.Println("problem:", p)
+		}
+		if fails {
+			fmt.Println("FAILS")
+			os.Exit(1)
+		}
+		fmt.Println("holds")
+		return
+	}
 	script := vlib.UnQs(v.Case.Script)
 	_, got, probs := executeE(v.Case.Size, script, v.Case.Errs)
 	want := frame(strings.Join(script, ""))
